@@ -5,21 +5,25 @@ package txn
 
 import (
 	"bytes"
+	"database/sql"
 	"fmt"
 	"io"
 	"os"
 	"sort"
 	"strings"
+	"sync/atomic"
 	"time"
 
 	"github.com/google/uuid"
+	_ "github.com/mattn/go-sqlite3"
 	"github.com/wrgl/wrgl/pkg/objects"
 	"github.com/wrgl/wrgl/pkg/ref"
+	refsql "github.com/wrgl/wrgl/pkg/ref/sql"
+	"github.com/wrgl/wrgl/pkg/sqlutil"
 	"github.com/wrgl/wrgl/pkg/transaction"
 	"github.com/wrgl/wrgl/pkg/vhook"
 
 	"verifharness/internal/cli"
-	"verifharness/internal/refs"
 	"verifharness/internal/tbl"
 )
 
@@ -138,8 +142,33 @@ type World struct {
 	closeFn func()
 }
 
+var dbCounter int64
+
+// newMemRefStore opens a private in-memory sqlite ref store the way the repository's
+// own refmock does: no limit on the connection pool (refs.NewMemStore allows one
+// connection, with which ref/sql.GetTransactionLogs - a query inside a query - blocks).
+func newMemRefStore() (ref.Store, *sql.DB, error) {
+	n := atomic.AddInt64(&dbCounter, 1)
+	db, err := sql.Open("sqlite3", fmt.Sprintf("file:veriftxn%d-%d.db?cache=shared&mode=memory", os.Getpid(), n))
+	if err != nil {
+		return nil, nil, err
+	}
+	if err := sqlutil.RunInTx(db, func(tx *sql.Tx) error {
+		for _, stmt := range refsql.CreateTableStmts {
+			if _, err := tx.Exec(stmt); err != nil {
+				return err
+			}
+		}
+		return nil
+	}); err != nil {
+		db.Close()
+		return nil, nil, err
+	}
+	return refsql.NewStore(db), db, nil
+}
+
 func NewLibWorld() (*World, error) {
-	rs, sqldb, err := refs.NewMemStore()
+	rs, sqldb, err := newMemRefStore()
 	if err != nil {
 		return nil, err
 	}
